@@ -349,6 +349,8 @@ pub enum Outcome {
     StopUnhandled,
     StopHandled,
     Fail,
+    /// calls stop() and then returns an error
+    StopFail,
 }
 
 #[derive(Clone, Debug, Default)]
@@ -424,7 +426,11 @@ fn hook_body(id: usize, ax: &mut Axecutor, m: SupportedMnemonic) -> Result<HookR
         })
     });
     if let Some((r, v)) = modify {
-        ax.reg_write_64(crate::mach::SR64[r as usize % 16], v).unwrap();
+        if r == 16 {
+            ax.reg_write_64(ax_x86::state::registers::SupportedRegister::RIP, v).unwrap();
+        } else {
+            ax.reg_write_64(crate::mach::SR64[r as usize % 16], v).unwrap();
+        }
     }
     match outcome {
         Outcome::Unhandled => Ok(HookResult::Unhandled),
@@ -438,6 +444,10 @@ fn hook_body(id: usize, ax: &mut Axecutor, m: SupportedMnemonic) -> Result<HookR
             Ok(HookResult::Handled)
         }
         Outcome::Fail => Err(format!("scripted hook {} fails", id).into()),
+        Outcome::StopFail => {
+            ax.stop();
+            Err(format!("scripted hook {} stops and fails", id).into())
+        }
     }
 }
 
